@@ -284,10 +284,11 @@ class MergedSequences(Generic[_ValueT]):
     """Slices the merged sequences."""
     if slice_.step is not None:
       raise NotImplementedError(f'step is not supported, got {slice_}')
-    start = self._index(slice_.start or 0)
-    stop = self._index(len(self) if slice_.stop is None else slice_.stop)
-    if start.seq_idx == len(self._sequences):
+    # Normalizes negative and out-of-range bounds the same way as list slicing.
+    start, stop, _ = slice_.indices(len(self))
+    if start >= stop:
       return iter(())
+    start, stop = self._index(start), self._index(stop)
     if start.seq_idx == stop.seq_idx:
       return self._index_slice(start.seq_idx, start.idx, stop.idx)
     # Chain multiple sequences together with correct slices.
